@@ -225,7 +225,11 @@ fn write_gnu_build_id_note(
     let name_out = rest.split_off_mut(..GNU_NOTE_NAME.len()).unwrap();
     name_out.copy_from_slice(GNU_NOTE_NAME);
 
-    rest.copy_from_slice(build_id);
+    // Any padding after the descriptor was zeroed when we wrote the rest of the file.
+    let desc_out = rest
+        .split_off_mut(..build_id.len())
+        .ok_or_else(|| insufficient_allocation(NOTE_GNU_BUILD_ID_SECTION_NAME_STR))?;
+    desc_out.copy_from_slice(build_id);
 
     Ok(())
 }
